@@ -33,12 +33,21 @@ Definition ConcatenateLSBF_m (wr : Z) (ins : list (Z * Z)) : Z := ConcatenateLSB
 (* ---- 2-input gates built from gates.  Nand2: Mid has a's width (bitwise.py:420-423) *)
 Definition Nand2_m (wa wr a b : Z) : Z := Not_m wr (And2_m wa a b).
 Definition Nor2_m (wa wr a b : Z) : Z := Not_m wr (Or2_m wa a b).
-(* Xor2 (bitwise.py:759-766): Mid, XOut, YOut have a's width; the Nand2 fed by (b, mid) takes ITS Mid width from b *)
-Definition Xor2_m (wa wb wr a b : Z) : Z :=
-  let mid := Nand2_m wa wa a b in
-  let xout := Nand2_m wa wa a mid in
-  let yout := Nand2_m wb wa b mid in
-  Nand2_m wa wr xout yout.
+(* Xor2 (bitwise.py:759-766): four NANDs; Mid, XOut, YOut have a common width given by the constructor's formula
+   (a `mid_policy` of the three port widths).  The Nand2 fed by (b, mid) takes ITS inner Mid width from b, the one fed by
+   (xout, yout) from xout.  The formula in /repo is PROBED by the check (py/props/c08.py reads the width of the real Mid wire):
+     mid_a   : a's width                       (the tree before the repair of finding C08-xor2-wide-result)
+     mid_max : max of a's, b's and r's widths  (after it)
+   Every theorem about Xor2 and its users is proved for any policy satisfying the inequality it needs. *)
+Definition mid_policy := Z -> Z -> Z -> Z.
+Definition mid_a : mid_policy := fun wa _ _ => wa.
+Definition mid_max : mid_policy := fun wa wb wr => Z.max wa (Z.max wb wr).
+Definition Xor2_m (mid : mid_policy) (wa wb wr a b : Z) : Z :=
+  let wm := mid wa wb wr in
+  let m := Nand2_m wa wm a b in
+  let xout := Nand2_m wa wm a m in
+  let yout := Nand2_m wb wm b m in
+  Nand2_m wm wr xout yout.
 
 (* ---- n-ary ladders (bitwise.py:44-69, 596-621, 793-817): 1 input -> Buf; otherwise
    aux := in0; for each further input aux := G2(aux, in_{i+1}) on a wire of r's width, the last one being r.
@@ -57,9 +66,9 @@ Definition Or_m (w : Z) (ins : list Z) : Z :=
   end.
 (* Xor: inputs of a common width wi; the first Xor2 sees (wi, wi, w), the following ones (w, wi, w).
    Fewer than 2 inputs raise (bitwise.py:799): dummy 0. *)
-Definition Xor_m (wi w : Z) (ins : list Z) : Z :=
+Definition Xor_m (mid : mid_policy) (wi w : Z) (ins : list Z) : Z :=
   match ins with
-  | a :: b :: rest => fold_left (fun acc x => Xor2_m w wi w acc x) rest (Xor2_m wi wi w a b)
+  | a :: b :: rest => fold_left (fun acc x => Xor2_m mid w wi w acc x) rest (Xor2_m mid wi wi w a b)
   | _ => 0
   end.
 (* Nor: Mid has the width of the first input (bitwise.py:450) *)
@@ -143,16 +152,22 @@ Definition PriorityEncoder_m (w : Z) (inc : bool) (a : list Z) : list Z :=
 (* ---- comparison.  Sign (arithmetic.py:269) = Bit(a, width-1) into a 1-bit wire *)
 Definition Sign_m (wa a : Z) : Z := Bit_m 1 (wa - 1) a.
 
-(* Equal (relational.py:160-175): xor has a's width; width 1 -> Not; else BitsLSBF + Nor (Mid 1 bit) *)
-Definition Equal_m (wa wb a b : Z) : Z :=
-  let x := Xor2_m wa wb wa a b in
-  if wa =? 1 then Not_m 1 x else Nor_m 1 1 (BitsLSBF_m wa x).
+(* Equal (relational.py:160-175): the xor wire (and the bit split) has a width given by the constructor's formula of the two
+   operand widths, PROBED like Xor2's:  eqw_a : a's width (before the repair of C08-equal-wider-b), eqw_max : the wider operand.
+   width 1 -> Not; else BitsLSBF + Nor (Mid 1 bit) *)
+Definition eq_policy := Z -> Z -> Z.
+Definition eqw_a : eq_policy := fun wa _ => wa.
+Definition eqw_max : eq_policy := Z.max.
+Definition Equal_m (mid : mid_policy) (eqw : eq_policy) (wa wb a b : Z) : Z :=
+  let wx := eqw wa wb in
+  let x := Xor2_m mid wa wb wx a b in
+  if wx =? 1 then Not_m 1 x else Nor_m 1 1 (BitsLSBF_m wx x).
 
 (* AnyEqual (relational.py:39-46): Equal for every ordered pair i <> j, Or of the results *)
-Definition AnyEqual_m (w wr : Z) (ins : list Z) : Z :=
+Definition AnyEqual_m (mid : mid_policy) (eqw : eq_policy) (w wr : Z) (ins : list Z) : Z :=
   let n := length ins in
   Or_m wr (flat_map (fun i => flat_map (fun j =>
-             if Nat.eqb i j then [] else [Equal_m w w (nth i ins 0) (nth j ins 0)]) (seq 0 n)) (seq 0 n)).
+             if Nat.eqb i j then [] else [Equal_m mid eqw w w (nth i ins 0) (nth j ins 0)]) (seq 0 n)) (seq 0 n)).
 
 (* Comparator (relational.py:218-233): sub on w+1 bits; lt := Sign(sub); eq := EqualConstant(sub, 0);
    gt := And2(Not eq, Not lt).  Result (gt, eq, lt). *)
@@ -164,16 +179,16 @@ Definition Comparator_m (w a b : Z) : Z * Z * Z :=
   (gt, eq, lt).
 
 (* ComparatorSignedUnsigned (relational.py:285-311).  Result (gtu, eq, ltu, gt, lt). *)
-Definition ComparatorSU_m (w a b : Z) : Z * Z * Z * Z * Z :=
+Definition ComparatorSU_m (mid : mid_policy) (w a b : Z) : Z * Z * Z * Z * Z :=
   let sa := Sign_m w a in
   let sb := Sign_m w b in
-  let difs := Xor2_m 1 1 1 sa sb in
+  let difs := Xor2_m mid 1 1 1 sa sb in
   let sub := Sub_m (w + 1) a b in
   let ltu := Sign_m (w + 1) sub in
-  let lt := Xor2_m 1 1 1 ltu difs in
+  let lt := Xor2_m mid 1 1 1 ltu difs in
   let eq := EqualConstant_m (w + 1) 1 0 sub in
   let gtu := And2_m 1 (Not_m 1 eq) (Not_m 1 ltu) in
-  let gt := Xor2_m 1 1 1 gtu difs in
+  let gt := Xor2_m mid 1 1 1 gtu difs in
   (gtu, eq, ltu, gt, lt).
 
 Definition cmp_gt (r : Z * Z * Z) : Z := fst (fst r).
@@ -184,8 +199,8 @@ Definition su_lt (r : Z * Z * Z * Z * Z) : Z := snd r.
 (* Max2 = Mux2(lt, a, b); Min2 = Mux2(gt, a, b); the signed ones use the signed outputs (relational.py:346,383,419,458) *)
 Definition Max2_m (w wr a b : Z) : Z := Mux2_m wr (cmp_lt (Comparator_m w a b)) a b.
 Definition Min2_m (w wr a b : Z) : Z := Mux2_m wr (cmp_gt (Comparator_m w a b)) a b.
-Definition SignedMax2_m (w wr a b : Z) : Z := Mux2_m wr (su_lt (ComparatorSU_m w a b)) a b.
-Definition SignedMin2_m (w wr a b : Z) : Z := Mux2_m wr (su_gt (ComparatorSU_m w a b)) a b.
+Definition SignedMax2_m (mid : mid_policy) (w wr a b : Z) : Z := Mux2_m wr (su_lt (ComparatorSU_m mid w a b)) a b.
+Definition SignedMin2_m (mid : mid_policy) (w wr a b : Z) : Z := Mux2_m wr (su_gt (ComparatorSU_m mid w a b)) a b.
 
 (* Swap (relational.py:610-611) *)
 Definition Swap_m (wra wrb a b swap : Z) : Z * Z := (Mux2_m wra swap a b, Mux2_m wrb swap b a).
